@@ -20,6 +20,20 @@ var pathIDs = [][2]string{
 	{"k%00", "k\x00"}, {"%25s", "%s"}, {"..k", "..k"}, {"k.", "k."},
 }
 
+// long IDs: pairs that differ only after a long common prefix (just beyond 64,
+// 255/256, 1024 and 4096 bytes), and an ID next to its own 64-byte prefix
+func init() {
+	rep := func(c string, n int) string { return strings.Repeat(c, n) }
+	for _, id := range []string{
+		rep("x", 63), rep("x", 64), rep("x", 64) + "a", rep("x", 64) + "b",
+		rep("y", 255) + "1", rep("y", 255) + "2", rep("y", 256) + "1",
+		rep("z", 1024) + "p", rep("z", 1024) + "q",
+		rep("w", 4096) + "A", rep("w", 4096) + "B",
+	} {
+		pathIDs = append(pathIDs, [2]string{id, id})
+	}
+}
+
 // httpMapping: through the real mux over TLS, the ID in /i/{id} and /o/{id}
 // reaches the broker byte-exact (after one URL decoding), and a refused
 // request ends at once with no operator input.
